@@ -80,7 +80,7 @@ sim_ctx_switch:
 .size sim_ctx_switch,.-sim_ctx_switch
 )");
 
-static const int MAXT = 64;
+static const int MAXT = 128;
 static const size_t STACK_BYTES = 512 * 1024;
 static const size_t GUARD_BYTES = 16 * 1024;
 
